@@ -126,6 +126,7 @@ def main() -> None:
         prepend_files.insert(0, RIMURC)
     if prepend:
         prepend_files.append(PREPEND_TAG)
+    trusted = len(prepend_files)  # The leading prepended inputs are trusted, by position not by name.
     files = prepend_files + files
     # Convert Rimu source files to HTML.
     output = ''
@@ -133,7 +134,7 @@ def main() -> None:
     options = rimu.RenderOptions()
     if html_replacement is not None:
         options.htmlReplacement = html_replacement
-    for infile in files:
+    for index, infile in enumerate(files):
         source = ''
         options.safeMode = safe_mode
         ext = ''
@@ -154,7 +155,7 @@ def main() -> None:
                     source = f.read()
             except:
                 die('source file permission denied: ' + infile)
-            if infile in prepend_files:
+            if index < trusted:
                 # Prepended and ~/.rimurc files are trusted.
                 options.safeMode = 0
             ext = os.path.splitext(infile)[1]
